@@ -77,6 +77,10 @@ EXPLANATION += (
     ' Round 7: the embedded marker table is enumerated from the tree searched (R-PROV/marker-table-follows-tree).'
 )
 
+EXPLANATION += (
+    ' Round 8: directly_assigned is written only by the front end (True) and the back-fill (False), unconditionally (R-SAMEVAL/flag-per-level).'
+)
+
 RULE_TEXT = (
     "one obligation per consumed record key, per dataset, per record key "
     "of the codec, per constant relation; non-trivial when the key / "
